@@ -1699,3 +1699,524 @@ func c10Round3(c *core.Ctx) {
 
 // back-off results that are deliberately not propagated (each confirmed by reading)
 var c10BackoffIgnored = map[string]string{}
+
+// ---- round 3, second batch ---------------------------------------------------------------------------------------
+func init() {
+	extend("C08", "(R12) the flags that survive an undo (persistentFlags) are exactly locked, locked-value-exists, need-constraint-check-in-prewrite and locked-in-share-mode.", func(c *core.Ctx) {
+		a := rule(c, "C08.R12")
+		kvp := core.ModPath + "/kv"
+		pf := constInt(c, kvp, "persistentFlags")
+		want := int64(0)
+		for _, n := range []string{"flagKeyLocked", "flagKeyLockedValExist", "flagNeedConstraintCheckInPrewrite", "flagKeyLockedInShareMode"} {
+			want |= constInt(c, kvp, n)
+		}
+		a.checkAt(pf == want && want != 0, "kv.persistentFlags", "-", fmt.Sprintf("%#x", pf), fmt.Sprintf("persistentFlags is %#x, expected %#x: a flag that must survive the cleanup of a staging level (a key locked inside the level stays locked on the store) is dropped with the level — or a transient flag survives", pf, want))
+	})
+	extend("C11", "(R6) the mock store reports 'not found' for a raw get only for an absent key (nil), not for an empty value.", func(c *core.Ctx) {
+		a := rule(c, "C11.R6")
+		fn := a.fn(pkgMock, "kvHandler", "handleKvRawGet")
+		if fn == nil {
+			return
+		}
+		n := 0
+		for _, st := range storesToFieldNamed(fn, "RawGetResponse.NotFound") {
+			if cst, ok := asConst(st.(*ssa.Store).Val); ok && cst.Value != nil {
+				continue // error paths
+			}
+			n++
+			b, ok := core.Strip(st.(*ssa.Store).Val).(*ssa.BinOp)
+			okk := ok && b.Op == token.EQL && (isNil(b.X) || isNil(b.Y))
+			a.check(okk, fname(fn)+" NotFound ⇔ value is nil", st, "", "NotFound is not `value == nil`: a key stored with an empty value is reported as absent by Get while Scan still returns it")
+		}
+		a.checkAt(n == 1, fname(fn)+" NotFound", a.fnPos(fn), "", "NotFound assignment not found")
+	})
+	extend("C12", "(R8) getTxnCommitInfo scans all write records of the key (no ordering test on start ts: records are ordered by commit ts); (R9) a pessimistic lock is rewritten only for a larger for-update ts; (R10) a write record newer than the for-update ts is a write conflict without further conditions.", c12Round3)
+	extend("C13", "(R7) the local and mock oracles read the clock with their mutex held; (R8) every clock reading of the mock oracle is shifted by its offset; (R9) the cached timestamp of a scope is looked up under that scope only.", c13Round3)
+	extend("C14", "(R7) GC batch resolve rolls pessimistic locks back key by key (no region-wide clean set shared between transactions).", func(c *core.Ctx) {
+		a := rule(c, "C14.R7")
+		fn := a.fn(pkgLock, "LockResolver", "BatchResolveLocks")
+		if fn == nil {
+			return
+		}
+		n := 0
+		for _, ci := range core.FindCalls(fn, core.CallsMethodNamed("resolvePessimisticLock", "")) {
+			n++
+			args := ci.Common().Args
+			cst, ok := asConst(args[3])
+			a.check(ok && cst.Value != nil && cst.Value.String() == "false" && isNil(args[4]), fname(fn)+" rolls pessimistic locks back key by key", ci, "", "pessimistic locks are rolled back with the region-wide form and a clean-regions set shared by the whole batch: the locks of a second transaction in the same region are skipped as already clean and survive the GC pass")
+		}
+		a.checkAt(n == 1, fname(fn)+" pessimistic rollback site", a.fnPos(fn), "", "not found")
+	})
+	extend("C15", "(R8) encode helpers never write through an element of their input (they encode a copy or a fresh message); DecodeRange compares the end bound only when it is not the +∞ sentinel.", c15Round3)
+	extend("C16", "(R8) a buffer-tier batch get keeps its tier when it is re-split after a region error; FlushWait reports nil without reading the flush result only when no flush is outstanding.", c16Round3)
+	extend("C17", "(R9) latches are released (and waiters woken) only by the scheduler goroutine.", func(c *core.Ctx) {
+		a := rule(c, "C17.R9")
+		rel := a.fn("internal/latch", "Latches", "release")
+		run := a.fn("internal/latch", "LatchesScheduler", "run")
+		if rel == nil || run == nil {
+			return
+		}
+		n := 0
+		for _, cs := range c.P.CallersOf(rel) {
+			if strings.HasSuffix(c.P.Fset.Position(cs.Fn.Pos()).Filename, "_test.go") {
+				continue
+			}
+			n++
+			onRun := false
+			for f, k := cs.Fn, 0; f != nil && k < 6; k++ {
+				f = enclosing(f)
+				if f == run {
+					onRun = true
+					break
+				}
+				if f.Object() == nil || f.Object().Exported() {
+					break
+				}
+				cl := c.P.CallersOf(f)
+				if len(cl) != 1 {
+					break
+				}
+				f = cl[0].Fn
+			}
+			a.check(onRun, fname(cs.Fn)+" calls Latches.release", cs.Instr, "", "latches are released outside the scheduler goroutine: the wake-up list returned by release is not processed there, so a waiter queued on the key is never woken")
+		}
+		a.checkAt(n >= 1, "callers of Latches.release", "-", fmt.Sprint(n), "no caller found")
+	})
+	extend("C18", "(R9) a stream that won the re-create race advances its epoch before failing the pending requests; (R10) a collapsed request waits for the caller's own time-out; (R11) every response of a registered request retires its entry (delete from the pending map, decrement the in-flight counter) whether or not the caller still waits.", c18Round3)
+	extend("C19", "(R6) varint scratch buffers have the 64-bit maximum length; reallocBytes keeps the existing bytes (the new buffer has the old length); the mem-comparable key encoder encodes every key, also the empty one.", c19Round3)
+	extend("C20", "(R8) equal jitter is v/2 + rand(v/2).", func(c *core.Ctx) {
+		a := rule(c, "C20.R8")
+		fn := a.fn(pkgRetry, "", "newBackoffFn")
+		if fn == nil {
+			return
+		}
+		n := 0
+		for _, f := range core.FuncsIn(fn) {
+			core.Instrs(f, func(in ssa.Instruction) {
+				b, ok := in.(*ssa.BinOp)
+				if !ok || b.Op != token.ADD {
+					return
+				}
+				var half ssa.Value
+				var intn *ssa.Call
+				for _, pr := range [][2]ssa.Value{{b.X, b.Y}, {b.Y, b.X}} {
+					if cl, ok := core.Strip(pr[1]).(*ssa.Call); ok && cl.Call.StaticCallee() != nil && cl.Call.StaticCallee().Name() == "Intn" {
+						if q, ok := core.Strip(pr[0]).(*ssa.BinOp); ok && q.Op == token.QUO {
+							half, intn = q, cl
+						}
+					}
+				}
+				if intn == nil {
+					return
+				}
+				n++
+				a.check(sameExpr(intn.Call.Args[0], half, 0), fname(f)+" equal jitter = v/2 + rand(v/2)", in, "", "the random part of the equal-jitter sleep is not bounded by the other half of the step: one sleep can exceed the exponential step and the cap of its kind")
+			})
+		}
+		a.checkAt(n == 1, fname(fn)+" equal-jitter expression", a.fnPos(fn), "", "v/2 + rand.Intn(…) not found")
+	})
+}
+
+func c12Round3(c *core.Ctx) {
+	p := c.P
+	{
+		a := rule(c, "C12.R8")
+		fn := a.fn(pkgMock, "", "getTxnCommitInfo")
+		if fn != nil {
+			n := 0
+			core.Instrs(fn, func(in ssa.Instruction) {
+				b, ok := in.(*ssa.BinOp)
+				if !ok {
+					return
+				}
+				dx, dy := strings.Join(p.Prov().Desc(b.X), "|"), strings.Join(p.Prov().Desc(b.Y), "|")
+				if !(strings.Contains(dx+dy, "fld(mvccValue.startTS,") && strings.Contains(dx+dy, "param#2")) {
+					return
+				}
+				n++
+				a.check(b.Op == token.EQL || b.Op == token.NEQ, fname(fn)+" matches the start ts by equality only", in, b.Op.String(), "the scan over a key's write records is cut short by an ordering test on the records' start ts: records are ordered by commit ts, so a transaction that started earlier but committed later hides the searched one (a committed transaction is reported as not found and then rolled back)")
+			})
+			a.checkAt(n >= 1, fname(fn)+" start-ts match", a.fnPos(fn), "", "comparison not found")
+		}
+	}
+	{
+		a := rule(c, "C12.R9")
+		fn := a.fn(pkgMock, "MVCCLevelDB", "pessimisticLockMutation")
+		if fn != nil {
+			n := 0
+			core.Instrs(fn, func(in ssa.Instruction) {
+				b, ok := in.(*ssa.BinOp)
+				if !ok {
+					return
+				}
+				dx, dy := strings.Join(p.Prov().Desc(b.X), "|"), strings.Join(p.Prov().Desc(b.Y), "|")
+				isReq := func(d string) bool { return strings.HasPrefix(d, "fld(lockCtx.forUpdateTS,") }
+				if !(strings.Contains(dx, "fld(mvccLock.forUpdateTS,") && isReq(dy)) && !(strings.Contains(dy, "fld(mvccLock.forUpdateTS,") && isReq(dx)) {
+					return
+				}
+				n++
+				x, y, neg, isOrd := lessForm(b)
+				okk := isOrd && !neg && strings.Contains(strings.Join(p.Prov().Desc(x), "|"), "fld(mvccLock.forUpdateTS,") && isReq(strings.Join(p.Prov().Desc(y), "|"))
+				a.check(okk, fname(fn)+" rewrites its own lock only for a larger for-update ts", in, "", "the transaction's own pessimistic lock is rewritten when the for-update ts merely differs: a stale request with a smaller for-update ts lowers the lock's for-update ts and ttl")
+			})
+			a.checkAt(n == 1, fname(fn)+" for-update ts comparison", a.fnPos(fn), "", "comparison not found")
+		}
+	}
+	{
+		a := rule(c, "C12.R10")
+		fn := a.fn(pkgMock, "", "checkConflictValue")
+		if fn != nil {
+			n := 0
+			core.Instrs(fn, func(in ssa.Instruction) {
+				ifi, ok := in.(*ssa.If)
+				if !ok {
+					return
+				}
+				v, _ := core.CondOf(ifi)
+				at, _ := p.CanonAtom(v)
+				if !strings.Contains(at, "fld(mvccValue.commitTS,") || !strings.Contains(at, "param#2") || !strings.Contains(at, " < ") {
+					return
+				}
+				n++
+				// the conflict error is built directly on the edge "for-update ts < commit ts"
+				var succ *ssa.BasicBlock
+				for k := 0; k < 2; k++ {
+					if strings.HasPrefix(p.EdgeAtom(core.Edge{If: ifi, True: k == 0}), "T:(param#2 < fld(mvccValue.commitTS,") {
+						succ = ifi.Block().Succs[k]
+					}
+				}
+				built := false
+				if succ != nil {
+					for _, x := range succ.Instrs {
+						if al, ok := x.(*ssa.Alloc); ok && strings.HasSuffix(al.Type().String(), "mocktikv.ErrConflict") {
+							built = true
+						}
+					}
+				}
+				a.check(built, fname(fn)+" commit ts > for-update ts ⇒ write conflict", in, at, "a write record committed after the for-update ts no longer yields a write conflict unconditionally (an extra condition was added, or the comparison changed): e.g. a duplicate prewrite after the transaction's own commit is accepted and leaves a lock")
+			})
+			a.checkAt(n == 1, fname(fn)+" conflict comparison", a.fnPos(fn), "", "comparison of the newest write's commit ts with the for-update ts not found")
+		}
+	}
+}
+
+func c13Round3(c *core.Ctx) {
+	p := c.P
+	isNow := func(in ssa.Instruction) bool {
+		ci, ok := in.(*ssa.Call)
+		return ok && ci.Call.StaticCallee() != nil && ci.Call.StaticCallee().String() == "time.Now"
+	}
+	{
+		a := rule(c, "C13.R7")
+		for _, spec := range [][2]string{{"localOracle", "GetTimestamp"}, {"MockOracle", "GetTimestamp"}} {
+			fn := a.fn(pkgOracle, spec[0], spec[1])
+			if fn == nil {
+				continue
+			}
+			ls := core.Lockset(fn)
+			n := 0
+			core.Instrs(fn, func(in ssa.Instruction) {
+				if !isNow(in) {
+					return
+				}
+				n++
+				held := false
+				for k, v := range ls[in] {
+					if v == 'W' && strings.HasSuffix(k, "Mutex") {
+						held = true
+					}
+				}
+				a.check(held, fname(fn)+" reads the clock under its mutex", in, "", "the clock is read before the mutex is taken: a caller delayed on the lock publishes an older reading and the next call hands out a timestamp that was already returned")
+			})
+			a.checkAt(n >= 1, fname(fn)+" clock reading", a.fnPos(fn), "", "time.Now not found")
+		}
+	}
+	{
+		a := rule(c, "C13.R8")
+		n := 0
+		for _, fn := range p.Funcs {
+			if fn.Signature.Recv() == nil || !strings.HasSuffix(fn.Signature.Recv().Type().String(), "oracles.MockOracle") || fn.Parent() != nil {
+				continue
+			}
+			// the two expiry answers and the timestamp sources they are compared with; GetStaleTimestamp reads the
+			// unshifted clock on the pinned tree and is not part of the expiry clause
+			if fn.Name() == "GetStaleTimestamp" {
+				continue
+			}
+			core.Instrs(fn, func(in ssa.Instruction) {
+				if !isNow(in) {
+					return
+				}
+				n++
+				okk := false
+				for _, ref := range *in.(*ssa.Call).Referrers() {
+					if cl, ok := ref.(*ssa.Call); ok && cl.Call.StaticCallee() != nil && cl.Call.StaticCallee().Name() == "Add" && len(cl.Call.Args) == 2 {
+						if strings.Contains(strings.Join(p.Prov().Desc(cl.Call.Args[1]), "|"), "fld(MockOracle.offset,") {
+							okk = true
+						}
+					}
+				}
+				a.check(okk, fname(fn)+" shifts the clock by the oracle's offset", in, "", "this method reads the wall clock without the mock oracle's offset while its siblings apply it: after AddOffset the expiry answers disagree (expired, yet positive time left)")
+			})
+		}
+		a.checkAt(n >= 3, "MockOracle clock readings", "-", fmt.Sprint(n), "not found")
+	}
+	{
+		a := rule(c, "C13.R9")
+		fn := a.fn(pkgOracle, "pdOracle", "getLastTSWithArrivalTS")
+		if fn != nil {
+			n := 0
+			core.Instrs(fn, func(in ssa.Instruction) {
+				ci, ok := in.(*ssa.Call)
+				if !ok || ci.Call.StaticCallee() == nil || ci.Call.StaticCallee().String() != "(*sync.Map).Load" {
+					return
+				}
+				n++
+				okk := true
+				for _, d := range p.Prov().Desc(ci.Call.Args[1]) {
+					// the scope parameter, or "global" standing in for the empty scope
+					if d != "param#0" && !strings.HasPrefix(d, "const(") {
+						okk = false
+					}
+				}
+				a.checkAt(n == 1 && okk, fname(fn)+" looks the cell up under the caller's scope", p.InstrPos(in), "", "the cached timestamp of a scope is looked up under another key as well (e.g. a fallback to the global scope): a scope that has not published yet reads a foreign, possibly newer value and its low-resolution timestamp later goes backward")
+			})
+		}
+	}
+}
+
+func c15Round3(c *core.Ctx) {
+	p := c.P
+	a := rule(c, "C15.R8")
+	// encode helpers: field assignments go to a struct value (a copy) or to a pointer to a message built here
+	n := 0
+	for _, name := range []string{"encodeMutations", "encodeParis", "encodeKeyRange", "encodeCopRange", "encodeRegionInfo", "encodeTableRegions", "encodeStoreBatchTasks", "encodeVersionedCopRanges", "encodeKeys", "encodeKeyRanges", "encodeCopRanges", "encodeRegionInfos"} {
+		fs := findFuncDecl(p, "internal/apicodec", "codecV2", name)
+		if fs == nil {
+			continue
+		}
+		fresh := map[types.Object]bool{}
+		ast.Inspect(fs.Decl.Body, func(nd ast.Node) bool {
+			as, ok := nd.(*ast.AssignStmt)
+			if !ok {
+				return true
+			}
+			for i, lhs := range as.Lhs {
+				id, ok := lhs.(*ast.Ident)
+				if !ok || i >= len(as.Rhs) {
+					continue
+				}
+				if ue, ok := as.Rhs[i].(*ast.UnaryExpr); ok && ue.Op == token.AND {
+					if _, isLit := ue.X.(*ast.CompositeLit); isLit {
+						if o := fs.Pkg.TypesInfo.Defs[id]; o != nil {
+							fresh[o] = true
+						}
+					}
+				}
+			}
+			return true
+		})
+		for _, fa := range fieldAssignsIn(fs.Pkg, fs.Decl.Body.List) {
+			n++
+			var baseExpr ast.Expr
+			for i, lhs := range fa.Stmt.Lhs {
+				if i == fa.Idx {
+					for {
+						if ix, ok := lhs.(*ast.IndexExpr); ok {
+							lhs = ix.X
+							continue
+						}
+						break
+					}
+					if sel, ok := lhs.(*ast.SelectorExpr); ok {
+						baseExpr = sel.X
+					}
+				}
+			}
+			okk := false
+			if baseExpr != nil {
+				t := fs.Pkg.TypesInfo.TypeOf(baseExpr)
+				if _, isPtr := t.(*types.Pointer); !isPtr {
+					okk = true // a struct value: the helper's own copy
+				} else if id, ok := baseExpr.(*ast.Ident); ok && fresh[fs.Pkg.TypesInfo.Uses[id]] {
+					okk = true // a message built in this helper
+				}
+			}
+			a.checkAt(okk, name+" writes "+fa.Field.Name()+" of its own copy", p.Pos(fa.Stmt.Pos()), "", "the helper writes the encoded key through a pointer into the caller's request: a retried request is prefixed twice and the caller's message is overwritten")
+		}
+	}
+	a.checkAt(n >= 6, "field assignments in encode helpers", "-", fmt.Sprint(n), "helpers not found")
+	// DecodeRange: the end bound is compared only when it is not the +∞ sentinel
+	if fn := a.fn(pkgAPI, "codecV2", "DecodeRange"); fn != nil {
+		core.Instrs(fn, func(in ssa.Instruction) {
+			cl, ok := in.(*ssa.Call)
+			if !ok || cl.Call.StaticCallee() == nil || cl.Call.StaticCallee().String() != "bytes.Compare" {
+				return
+			}
+			if strings.Join(p.Prov().Desc(cl.Call.Args[0]), "|") != "param#1" {
+				return
+			}
+			g, how := emptinessGuarded(c, fn, cl, cl.Call.Args[0], "param#1")
+			a.check(g, fname(fn)+" compares the end bound only when it is bounded", in, how, "an empty end bound (= +∞, the end of the last region) is order-compared with the keyspace prefix: the cluster's last region is rejected as out of bound: "+how)
+		})
+	}
+}
+
+func c16Round3(c *core.Ctx) {
+	p := c.P
+	a := rule(c, "C16.R8")
+	for _, name := range []string{"batchGetSingleRegion", "retryBatchGetSingleRegionAfterAsyncAPI"} {
+		fn := a.fn(pkgSnap, "KVSnapshot", name)
+		if fn == nil {
+			continue
+		}
+		for _, ci := range core.FindCalls(fn, core.CallsMethodNamed("batchGetKeysByRegions", "")) {
+			d := strings.Join(p.Prov().Desc(ci.Common().Args[3]), "|")
+			a.check(strings.HasPrefix(d, "param#"), fname(fn)+" re-splits with the same read tier", ci, d, "a batch get that is re-split after a region error continues with another read tier ("+d+"): a pipelined transaction's buffer-tier read turns into a snapshot-tier read and misses its own flushed writes")
+		}
+	}
+	if fn := a.fn(pkgUnion, "PipelinedMemDB", "FlushWait"); fn != nil {
+		for _, r := range returnsOf(fn) {
+			if !isNil(r.Results[0]) {
+				continue
+			}
+			g, w := guardedByAny(c, fn, r, "T:(fld(PipelinedMemDB.flushingMemDB,recv) == nil)")
+			a.check(g, fname(fn)+" skips the wait only when nothing is in flight", r, "", "FlushWait can report success without reading the outstanding flush's result (an extra condition skips the receive): a failed final flush is swallowed and the transaction commits without those writes: "+a.w(w))
+		}
+	}
+}
+
+func c18Round3(c *core.Ctx) {
+	p := c.P
+	{
+		a := rule(c, "C18.R9")
+		fn := a.fn(pkgClient, "batchCommandsClient", "recreateStreamingClient")
+		if fn != nil {
+			isEpochStore := func(in ssa.Instruction) bool {
+				st, ok := in.(*ssa.Store)
+				if !ok {
+					return false
+				}
+				if strings.Join(p.Prov().Desc(st.Addr), "|") != "param#2" {
+					return false
+				}
+				d := strings.Join(p.Prov().Desc(st.Val), "|")
+				return strings.Contains(d, "+ const(1))")
+			}
+			for _, ci := range core.FindCalls(fn, core.CallsMethodNamed("failPendingRequests", "")) {
+				g, w := core.MustPassBefore(fn, ci, isEpochStore)
+				a.check(g, fname(fn)+" advances its epoch before failing the pending requests", ci, "", "the stream that won the re-create race does not advance its own epoch: the next break of the same stream loses the race against itself and its pending requests are never failed (callers wait for their time-outs, async callbacks never fire): "+a.w(w))
+			}
+		}
+	}
+	{
+		a := rule(c, "C18.R10")
+		fn := a.fn(pkgClient, "reqCollapse", "collapse")
+		if fn != nil {
+			n := 0
+			for _, ci := range core.FindCalls(fn, func(cc *ssa.CallCommon) bool {
+				return cc.StaticCallee() != nil && cc.StaticCallee().String() == "time.NewTimer"
+			}) {
+				n++
+				d := strings.Join(p.Prov().Desc(ci.Common().Args[0]), "|")
+				a.check(strings.HasPrefix(d, "param#"), fname(fn)+" waits for the caller's time-out", ci, d, "the collapsed request waits for a fixed duration ("+d+") instead of the caller's time-out")
+			}
+			a.checkAt(n == 1, fname(fn)+" timer", a.fnPos(fn), "", "timer not found")
+		}
+	}
+	{
+		a := rule(c, "C18.R11")
+		fn := a.fn(pkgClient, "batchCommandsClient", "batchRecvLoop")
+		if fn != nil {
+			n := 0
+			core.Instrs(fn, func(in ssa.Instruction) {
+				ta, ok := in.(*ssa.TypeAssert)
+				if !ok || !strings.HasSuffix(ta.AssertedType.String(), "client.batchCommandsEntry") {
+					return
+				}
+				n++
+				isRetire := func(x ssa.Instruction) bool {
+					ci, ok := x.(ssa.CallInstruction)
+					return ok && calleeName(ci) == "Delete" && strings.Contains(strings.Join(p.Prov().Desc(ci.Common().Args[0]), "|"), "batchCommandsClient.batched")
+				}
+				okk, w, hit := condMust(c, fn, in, func(x ssa.Instruction) bool {
+					if x == in {
+						return true
+					}
+					_, isRet := x.(*ssa.Return)
+					return isRet
+				}, isRetire, nil)
+				if okk {
+					a.ok(fname(fn)+" retires the entry of every answered request", in, "")
+				} else {
+					a.viol(fname(fn)+" retires the entry of every answered request", hit, "a response for a registered request can be passed over without deleting its entry from the pending map / decrementing the in-flight counter (e.g. when the caller already gave up): the concurrency limit leaks one slot per such response until every later request times out: "+a.w(w))
+				}
+				// and the counter is decremented with it
+				okk2, w2, hit2 := condMust(c, fn, in, func(x ssa.Instruction) bool {
+					if x == in {
+						return true
+					}
+					_, isRet := x.(*ssa.Return)
+					return isRet
+				}, func(x ssa.Instruction) bool {
+					ci, ok := x.(ssa.CallInstruction)
+					return ok && calleeName(ci) == "Add" && strings.Contains(strings.Join(p.Prov().Desc(ci.Common().Args[0]), "|"), "batchCommandsClient.sent")
+				}, nil)
+				if okk2 {
+					a.ok(fname(fn)+" decrements the in-flight counter for every answered request", in, "")
+				} else {
+					a.viol(fname(fn)+" decrements the in-flight counter for every answered request", hit2, a.w(w2))
+				}
+			})
+			a.checkAt(n == 1, fname(fn)+" response dispatch", a.fnPos(fn), "", "entry lookup not found")
+		}
+	}
+}
+
+func c19Round3(c *core.Ctx) {
+	p := c.P
+	a := rule(c, "C19.R6")
+	n := 0
+	for _, name := range []string{"EncodeVarint", "EncodeUvarint"} {
+		fn := a.fn(pkgCodec, "", name)
+		if fn == nil {
+			continue
+		}
+		core.Instrs(fn, func(in ssa.Instruction) {
+			al, ok := in.(*ssa.Alloc)
+			if !ok {
+				return
+			}
+			pt, ok := al.Type().(*types.Pointer)
+			if !ok {
+				return
+			}
+			arr, ok := pt.Elem().(*types.Array)
+			if !ok {
+				return
+			}
+			n++
+			a.check(arr.Len() >= 10, fname(fn)+" scratch buffer holds a 64-bit varint", in, fmt.Sprint(arr.Len()), fmt.Sprintf("the scratch buffer has %d bytes, a 64-bit varint needs up to 10: encoding a large value panics", arr.Len()))
+		})
+	}
+	a.checkAt(n >= 2, "varint scratch buffers", "-", fmt.Sprint(n), "not found")
+	if fn := a.fn(pkgCodec, "", "reallocBytes"); fn != nil {
+		m := 0
+		core.Instrs(fn, func(in ssa.Instruction) {
+			mk, ok := in.(*ssa.MakeSlice)
+			if !ok {
+				return
+			}
+			m++
+			d := strings.Join(p.Prov().Desc(mk.Len), "|")
+			a.check(d == "len(param#0)", fname(fn)+" new buffer keeps the old length", in, d, "the grown buffer is created with length "+d+" instead of len(b): the following copy copies nothing and the bytes already encoded are lost")
+		})
+		a.checkAt(m == 1, fname(fn)+" allocation", a.fnPos(fn), "", "make not found")
+	}
+	if fn := a.fn("internal/apicodec", "memComparableCodec", "encodeKey"); fn != nil {
+		for _, r := range returnsOf(fn) {
+			d := strings.Join(p.Prov().Desc(r.Results[0]), "|")
+			a.check(d == "call(util/codec.EncodeBytes)#0", fname(fn)+" encodes every key", r, d, "some key (e.g. the empty one) is returned unencoded: its encoding is a proper prefix of every other encoding and does not decode")
+		}
+	}
+}
